@@ -515,6 +515,14 @@ func (p *Peer) addConnection(c *Connection, direction connectionDirection) error
 	return nil
 }
 
+// dropConnection undoes addConnection for a peer that turned out to no longer
+// be in the root peer list.
+func (p *Peer) dropConnection(c *Connection, direction connectionDirection) {
+	p.Lock()
+	p.removeConnection(p.connectionsFor(direction), c)
+	p.Unlock()
+}
+
 func (p *Peer) connectionsFor(direction connectionDirection) *[]*Connection {
 	if direction == inbound {
 		return &p.inboundConnections
